@@ -51,6 +51,9 @@ class Contract:
         self.raises_: list[Raises] = []
         self.loops: dict[int, Loop] = {}
         self.modifies_: tuple = ()
+        #: nested functions (qual 'outer.<locals>.inner'): variables of the enclosing function the body reads ("in") or rebinds
+        #: through `nonlocal` ("inout"): name -> (tag, mode).  Clauses see them as x.a.<name>__in and (inout) x.a.<name>__out
+        self.captures: dict[str, tuple] = {}
         self.ghost_exit: dict[str, Callable] = {}  # ghost component -> fn(x, xs...) defining it in the exit heap
         self.ghost_exit_exc: dict[str, Callable] = {}
         self.families: tuple = ("plain", "typed")
